@@ -39,6 +39,11 @@ class FOps (R : Type) extends OfScientific R, Add R, Sub R, Mul R, Div R, Neg R 
   sqrt : R → R
   powf : R → R → R
   exp : R → R
+  cos : R → R
+  /-- `x.is_normal()`: neither zero, subnormal, infinite nor NaN -/
+  isNormal : R → Bool
+  /-- `n as f64` for an integer `n` (`usize`, `isize`, `i32`) -/
+  ofInt : Int → R
   /-- `signum`: `1.0` when the sign bit is clear (incl. `+0.0`), `-1.0` when it is set, NaN ↦ NaN -/
   signum : R → R
   /-- `value.to_bits() > 0 && value.is_sign_positive()`: what `StrainsVec::push` stores as a value
